@@ -614,6 +614,10 @@ class Reach:
                 if cur is not None and len(cur) <= 1:
                     continue
                 vals = self._values_at(d['place']['local'], bb, 0, region, start, edges)
+                if vals == {0, 1}:
+                    lq = self._loop_quant_value(d['place']['local'], bb)
+                    if lq is not None:
+                        vals = {lq}
                 if len(vals) == 1 and None not in vals and not isinstance(next(iter(vals)), tuple):
                     edges[bb] = self._take(bb, self.it.switches[bb], next(iter(vals)))
                     progress = True
@@ -809,6 +813,10 @@ class Reach:
                 if not d or d['k'] not in ('copy', 'move') or d['place']['proj']:
                     continue
                 vals = self._values_at(d['place']['local'], bb)
+                if vals == {0, 1}:
+                    lq = self._loop_quant_value(d['place']['local'], bb)
+                    if lq is not None:
+                        vals = {lq}
                 if len(vals) == 1 and None not in vals and not isinstance(next(iter(vals)), tuple):
                     v = next(iter(vals))
                     sw = self.it.switches[bb]
@@ -818,6 +826,43 @@ class Reach:
             if not progress:
                 break
             self.reachable = self._reach(0, set())
+
+    def loop_quant_term(self, local, bb):
+        """(term, negated) when the boolean `local` read in block bb is — through copies and negations — a loop-form
+        quantifier (rules/loops.loop_quant_of_local): the term ('loopq', key) stands for `local holds its in-loop value`."""
+        from .rules.loops import loop_quant_of_local
+        neg = False
+        for _ in range(6):
+            d = loop_quant_of_local(self.facts, self.body, self.it, local, bb)
+            if d is not None:
+                return ('loopq', d['key']), (neg != (d['b'] == 0)), d
+            defs = self._local_defs(local)
+            IN, OUT = self._flow(local)
+            dd = defs.get((bb, 'stmts'))
+            cur = {dd} if dd is not None else IN.get(bb, set())
+            if len(cur) != 1:
+                return None
+            x = next(iter(cur))
+            if x[0] == 'copy':
+                local, bb = x[1], x[2]
+            elif x[0] == 'not':
+                local, bb, neg = x[1], x[2], not neg
+            else:
+                return None
+        return None
+
+    def _loop_quant_value(self, local, bb):
+        """0/1 when the evaluator's assumption decides the loop-form quantifier behind `local` at bb, else None."""
+        if self.evr.bool_atom is None:
+            return None
+        r = self.loop_quant_term(local, bb)
+        if r is None:
+            return None
+        term, neg, d = r
+        v = self.evr.ev(term)       # True = some iteration reached a site
+        if not isinstance(v, bool):
+            return None
+        return int(v != neg)
 
     def _reach(self, start, removed, edges=None):
         edges = edges if edges is not None else (self.rel_edges(start, tuple(removed)) if (start != 0 and hasattr(self, '_rel') and self.unknown_switches) else self.edges)
